@@ -7,7 +7,8 @@ package mqttproxy
 // over the filter alphabet below are executed on the real TopicManager; after each history every
 // topic of the topic alphabet is routed and compared with the MQTT 3.1.1 matching relation
 // written directly from the specification (4.7.1), and after unsubscribing everything the trie
-// must be back to an empty root.
+// must be back to an empty root. (For C15 the QoS reported for a routed client must also be the highest QoS among
+// its matching subscriptions.)
 
 import (
 	"fmt"
@@ -98,6 +99,11 @@ func TestBoundedC14Trie(t *testing.T) {
 				}
 				if routed && !okQoS[q] {
 					t.Fatalf("history %v topic %q client %s: routed with QoS %d which is not the QoS of one of its matching subscriptions %v", c14Fmt(prefix, clients, filters), topic, cid, q, okQoS)
+				}
+				// C15: a message of QoS m goes to every client holding a matching subscription with QoS >= m, and
+				// sendMsgToClient compares m with the reported QoS: the reported QoS must be the highest one
+				if routed && q == 0 && okQoS[1] {
+					t.Fatalf("history %v topic %q client %s: routed with QoS 0 although it holds a matching QoS 1 subscription %v", c14Fmt(prefix, clients, filters), topic, cid, okQoS)
 				}
 			}
 		}
